@@ -261,7 +261,10 @@ Definition set_g_log (x : list admission) (s : state) : state :=
 Record cfg := mkCfg {
   prefix_order : bool;     (* updateUsageQueue takes activeUsersM first (the code before 1937ea8) *)
   patched : bool;          (* the repair proposed for F5 (repo_patches/F5_orphan_session.diff) *)
-  is_bypass : N -> bool    (* State.IsBypass *)
+  is_bypass : N -> bool;   (* State.IsBypass *)
+  close_tx : nat -> Z      (* size on the wire of the notice frame Session.Close sends for session
+                              k (1..256 random padding bytes + header + AEAD overhead): an input,
+                              like every random choice; it passes the switchboard, so it is metered *)
 }.
 
 Definition init (d : dbmap) (nw : Z) : state :=
@@ -290,6 +293,14 @@ Fixpoint close_all (l : list (N * nat)) (f : nat -> ses) : nat -> ses :=
   match l with
   | [] => f
   | (_, k) :: t => close_all t (upd f k (mkSes (s_owner (f k)) (s_sid (f k)) true))
+  end.
+
+(* what the notice frames of close_all cost on the wire: only sessions not yet closed send one *)
+Fixpoint close_all_cost (ctx : nat -> Z) (l : list (N * nat)) (f : nat -> ses) : Z :=
+  match l with
+  | [] => 0
+  | (_, k) :: t => (if s_closed (f k) then 0 else ctx k)
+                   + close_all_cost ctx t (upd f k (mkSes (s_owner (f k)) (s_sid (f k)) true))
   end.
 
 (* the loop of updateUsageQueue over panel.activeUsers: the records r with activeUsers[uid r] = r
@@ -374,8 +385,12 @@ Definition tstep (c : cfg) (s : state) (t : nat) (ch : nat) : option state :=
         match slook sd (r_sess x) with
         | Some k =>
             let l' := sdel sd (r_sess x) in
-            (l', set_sess (upd (sess s) k (mkSes (s_owner (sess s k)) (s_sid (sess s k)) true))
-                   (set_rec r (mkRec (r_uid x) (r_bypass x) l' (r_valve x) (r_term x)) s1))
+            (* sesh.Close(): the notice frame is sent (and metered by the LimitedValve) unless the
+               session is closed already *)
+            let add := if s_closed (sess s k) || r_bypass x then pzero else (0, close_tx c k) in
+            (l', set_g_cnt (updN (g_cnt s) (r_uid x) (padd (g_cnt s (r_uid x)) add))
+                   (set_sess (upd (sess s) k (mkSes (s_owner (sess s k)) (s_sid (sess s k)) true))
+                     (set_rec r (mkRec (r_uid x) (r_bypass x) l' (padd (r_valve x) add) (r_term x)) s1)))
         | None => (r_sess x, s1)
         end in
       match l' with
@@ -401,10 +416,13 @@ Definition tstep (c : cfg) (s : state) (t : nat) (ch : nat) : option state :=
       else None
   | TC1 r rest k =>
       let x := recs s r in
+      let add := if r_bypass x then pzero
+                 else (0, close_all_cost (close_tx c) (r_sess x) (sess s)) in   (* the notice frames *)
       Some (goto t (seq_pc rest r k)
-              (set_lkS1 r (rw_unlock (lkS s r))
-                (set_sess (close_all (r_sess x) (sess s))
-                  (set_rec r (mkRec (r_uid x) (r_bypass x) [] (r_valve x) (patched c || r_term x)) s))))
+              (set_g_cnt (updN (g_cnt s) (r_uid x) (padd (g_cnt s (r_uid x)) add))
+                (set_lkS1 r (rw_unlock (lkS s r))
+                  (set_sess (close_all (r_sess x) (sess s))
+                    (set_rec r (mkRec (r_uid x) (r_bypass x) [] (padd (r_valve x) add) (patched c || r_term x)) s)))))
   | TD0 r rest k =>
       if rw_can_w (lkA s) then Some (goto t (TD1 r rest k) (set_lkA (rw_lock t (lkA s)) s)) else None
   | TD1 r rest k =>
